@@ -14,7 +14,9 @@ import (
 	"verifharness/kit"
 )
 
-var hostileInts = []int64{-1, -2, math.MinInt32, 0, 1, math.MaxInt32, 1 << 32, 1 << 40, math.MaxInt64, math.MinInt64, 200000000, 1 << 20, 65537}
+var hostileInts = []int64{-1, -2, math.MinInt32, 0, 1, math.MaxInt32, 1 << 32, 1 << 40, math.MaxInt64, math.MinInt64, 200000000, 1 << 20, 65537,
+	// non-negative as 64-bit values, negative or small once cut to 32 bits (and the reverse)
+	1 << 31, 1<<32 - 1, 1<<32 + 1<<31, 1<<33 - 16, 0x7FFFFFFF80000000, 1<<32 + 5, -(1 << 32), -(1<<32 + 7)}
 
 // typed operations whose first field is a peer-controlled length or count
 var lenOps = []struct {
